@@ -42,8 +42,27 @@ def derive_seed(*parts):
     return int.from_bytes(h[:8], "big")
 
 
-def run_shard(prop, subname, shard, nshards, tier, seed, armed):
-    mod = load(prop)  # must come first: fixes Config.max_limit before storage modules are imported
+def _atheris():
+    """atheris (libFuzzer for Python) from /verif/.deps if MANIFEST.setup_cmd could install it, else None."""
+    deps = os.path.join(HERE, ".deps")
+    if os.path.isdir(deps) and deps not in sys.path:
+        sys.path.append(deps)
+    try:
+        import atheris
+        return atheris
+    except Exception:
+        return None
+
+
+def run_shard(prop, subname, shard, nshards, tier, seed, armed, outfile=None):
+    ath = _atheris() if os.environ.get("VERIF_CGFUZZ") == "1" else None
+    if ath is not None:
+        # coverage feedback comes from the relay's own modules only (bytecode instrumentation at import)
+        # (the hook stays installed: the storage modules are imported lazily by the harness)
+        ath.instrument_imports(include=["nostr_relay"], enable_loader_override=False).__enter__()
+        mod = load(prop)
+    else:
+        mod = load(prop)  # must come first: fixes Config.max_limit before storage modules are imported
     from vlib.core import Recorder
     from vlib.harness import HarnessError
 
@@ -115,7 +134,12 @@ def run_shard(prop, subname, shard, nshards, tier, seed, armed):
                     raise ViolationFound(bad[0]["sig"])
 
             try:
-                test()
+                if sub.mode == "cgfuzz" and ath is not None:
+                    _run_cgfuzz(ath, test, n, hseed, state, rec, out, best, t0, outfile)
+                else:
+                    if sub.mode == "cgfuzz":
+                        rec.labels["engine:hypothesis-fallback(atheris unavailable)"] = 1
+                    test()
             except ViolationFound:
                 pass
             except HarnessError:
@@ -134,6 +158,46 @@ def run_shard(prop, subname, shard, nshards, tier, seed, armed):
     out.update(rec.summary())
     out["wall_s"] = time.time() - t0
     return out
+
+
+def _run_cgfuzz(ath, test, n, hseed, state, rec, out, best, t0, outfile):
+    """Coverage-guided campaign: libFuzzer (atheris) mutates the byte string that Hypothesis decodes into a
+    case of the sub-check's strategy (test.hypothesis.fuzz_one_input), guided by edge coverage of nostr_relay.
+    libFuzzer never returns from Fuzz(), so the shard summary is written from inside the target when the run
+    budget is used up or a violation was found (the found case is then ddmin-free: it is replayed as is)."""
+    fuzz_one = test.hypothesis.fuzz_one_input
+    cnt = {"n": 0}
+
+    def done():
+        if best:
+            out["violations"].append({"case": best["case"], "v": best["v"]})
+        rec.labels["engine:atheris-libfuzzer"] = cnt["n"]
+        out.update(rec.summary())
+        out["wall_s"] = time.time() - t0
+        tmp = outfile + ".tmp"
+        with open(tmp, "w") as fp:
+            json.dump(out, fp, default=repr)
+        os.replace(tmp, outfile)
+        sys.stdout.flush()
+        os._exit(0)
+
+    def target(data):
+        cnt["n"] += 1
+        try:
+            fuzz_one(data)
+        except ViolationFound:
+            done()
+        except BaseException:
+            out["harness_errors"].append(traceback.format_exc()[-3000:])
+            done()
+        if rec.evaluations >= n or cnt["n"] >= n * 50:  # inputs too short to decode into a case are not counted
+            done()
+
+    argv = [sys.argv[0], "-runs=%d" % (n * 60), "-seed=%d" % (hseed % (2**31 - 1) + 1), "-max_len=8192",
+            "-timeout=600", "-rss_limit_mb=0", "-print_final_stats=0", "-verbosity=%s" % os.environ.get("VERIF_CG_VERBOSITY", "0"), "-len_control=0"]
+    ath.Setup(argv, target)
+    ath.Fuzz()
+    done()
 
 
 def _save_harness_case(prop, subname, shard, case):
@@ -173,7 +237,7 @@ def main(argv):
     if mode == "run":
         prop, subname, shard, nshards, tier, seed, outfile, armed = argv[2:10]
         armed = set(a for a in armed.split(",") if a)
-        out = run_shard(prop, subname, int(shard), int(nshards), tier, int(seed), armed)
+        out = run_shard(prop, subname, int(shard), int(nshards), tier, int(seed), armed, outfile)
     elif mode == "replay":
         prop, outfile = argv[2:4]
         out = {"replays": run_replays(prop, argv[4:])}
